@@ -598,4 +598,57 @@ Proof.
       * unfold s1, s0. eapply frame_eq_trans; [apply frame_eq_rset|]. eapply frame_eq_trans; [apply frame_eq_rset|apply frame_eq_set_flags].
 Qed.
 
+
+(* progress at Invoke: under the relation a linearly well-typed invoke finds its closure, its clause and
+   its arguments *)
+Lemma find_clause_total : forall cls xs tag x,
+  cls_sig cls xs = true -> find (fun x => ident_eqb (xname x) tag) xs = Some x -> exists cl, find_clause cls tag = Some cl.
+Proof.
+  induction cls as [|c cr IH]; intros [|x0 xr] tag x CS FX; cbn [cls_sig] in CS; try discriminate.
+  apply andb_true_iff in CS as [CS CSr]. apply andb_true_iff in CS as [EQ _]. apply ident_eqb_eq in EQ.
+  unfold find_clause. cbn [find] in *. rewrite EQ. destruct (ident_eqb (xname x0) tag); [eauto|].
+  exact (IH xr tag x CSr FX).
+Qed.
+Lemma split_last1_app {X} (l0 : list X) x : AxSem.split_last 1 (l0 ++ [x]) = Some (l0, [x]).
+Proof.
+  unfold AxSem.split_last. rewrite app_length. cbn [List.length]. replace (Nat.leb 1 (List.length l0 + 1)) with true by (symmetry; apply Nat.leb_le; lia).
+  replace (List.length l0 + 1 - 1)%nat with (List.length l0) by lia.
+  rewrite firstn_app, firstn_all, Nat.sub_diag, skipn_app, skipn_all, Nat.sub_diag. cbn. now rewrite app_nil_r.
+Qed.
+Lemma invoke_progress c e s sp v tag t args :
+  rel c e s sp -> lin_check (sigs_of p) c (Invoke v tag t args) = true ->
+  exists e0 x tn cls cl e1,
+    AxSem.split_last 1 e = Some (e0, [(x, VClo tn cls [])]) /\ N.eqb (idn x) (idn v) = true /\
+    find_clause cls tag = Some cl /\ bind (vars (cl_ctx cl)) (map snd e0) = Some e1.
+Proof.
+  intros R LC. pose proof (rel_length R) as LEN.
+  cbn [lin_check] in LC. apply andb_true_iff in LC as [_ LC].
+  destruct (split_lastn 1 c) as [[c0 [|b [|b' r]]]|] eqn:SLc; try discriminate.
+  apply split_lastn_Some in SLc as [-> _].
+  apply andb_true_iff in LC as [LC AO]. apply andb_true_iff in LC as [LC TY]. apply andb_true_iff in LC as [IDb CH].
+  apply N.eqb_eq in IDb. apply ty_eqb_eq in TY. apply chi_eqb_eq in CH.
+  rewrite app_length in LEN. cbn [List.length] in LEN.
+  (* the environment ends with the closure *)
+  destruct (exists_last (l := e)) as (e0 & [x val] & ->); [intros ->; cbn in LEN; lia|].
+  rewrite app_length in LEN. cbn [List.length] in LEN.
+  assert (L0 : List.length e0 = List.length c0) by lia.
+  destruct (rel_vals R (List.length e0) x val) as (b0 & Hb0 & V); [apply nth_error_mid|].
+  rewrite L0, nth_error_mid in Hb0. inversion Hb0; subst b0. clear Hb0.
+  inversion V as [? z ? K1 ?|b1 tn cls a t1 t2 K1 K2 T1 T2 V1 V2 CLO]; subst; [congruence|]. clear V.
+  destruct CLO as (CO & _ & ENTRY).
+  assert (IDX : idn x = idn v).
+  { pose proof (rel_ids R) as Ids. unfold env_ids, ids in Ids. rewrite !map_app in Ids. cbn [map fst] in Ids.
+    apply app_inj_tail in Ids as [_ E]. congruence. }
+  rewrite K2 in *. unfold cls_ok, type_xtors in CO. cbn [sigs_of sg_types] in CO.
+  unfold args_ok, lookup_xtor, type_xtors in AO. cbn [sigs_of sg_types] in AO.
+  destruct (find (fun d => ident_eqb (tname d) tn) (ptypes p)) as [d|] eqn:FD; [|discriminate].
+  destruct (find (fun x => ident_eqb (xname x) tag) (txtors d)) as [xk|] eqn:FX; [|discriminate].
+  destruct (find_clause_total cls (txtors d) tag xk CO FX) as (cl & FC).
+  destruct (find_clause_pos cls (txtors d) tag cl 0%N CO FC) as (k & xk' & Hk & Hxk & XP & FX' & SMk).
+  assert (xk' = xk) by congruence. subst xk'.
+  destruct (bind_total (vars (cl_ctx cl)) (map snd e0)) as (e1 & BD).
+  { apply sig_match_iff, same_kt_length in AO. apply sig_match_iff, same_kt_length in SMk. unfold vars. rewrite !map_length. lia. }
+  exists e0, x, tn, cls, cl, e1. split; [apply split_last1_app|]. split; [apply N.eqb_eq; exact IDX|]. auto.
+Qed.
+
 End Clo.
